@@ -1,6 +1,7 @@
 package c09
 
 import (
+	"encoding/json"
 	"context"
 	"fmt"
 	"testing"
@@ -56,51 +57,65 @@ func TestExplore(t *testing.T) {
 	e := newEnv(r)
 	defer e.close()
 	x := &xp{e: e}
-	k1, k2 := newKey("k1"), newKey("k2")
+	// chains
+	for depth := 1; depth <= 6; depth++ {
+		ks := make([]*key, depth+1)
+		txs := make([]dag.Transaction, depth+1)
+		specs := make([]docSpec, depth+1)
+		for i := range ks {
+			ks[i] = newKey(fmt.Sprint("c", i))
+			specs[i] = docSpec{id: ks[i].did(), vms: []vmSpec{{ks[i], relCapInv}}}
+			txs[i] = x.send(fmt.Sprintf("depth %d create D%d", depth, i), specs[i].json(), ks[i].k, true, e.root)
+		}
+		for i := 0; i < depth; i++ {
+			specs[i].controllers = []did.DID{ks[i+1].did()}
+			txs[i] = x.send(fmt.Sprintf("depth %d D%d.controller=D%d", depth, i, i+1), specs[i].json(), ks[i].signer(ks[i].kid(ks[i].did())), false, txs[i])
+		}
+		txs[0] = x.send(fmt.Sprintf("depth %d update D0 by D1 key prevs=[d0,d1]", depth), specs[0].withService("a", "a").json(), ks[1].signer(ks[1].kid(ks[1].did())), false, txs[0], txs[1])
+		if depth >= 2 {
+			x.send(fmt.Sprintf("depth %d update D0 by D2 key prevs=[d0,d2]", depth), specs[0].withService("b", "b").json(), ks[2].signer(ks[2].kid(ks[2].did())), false, txs[0], txs[2])
+			x.send(fmt.Sprintf("depth %d update D0 by D2 key prevs=[d0,d1,d2]", depth), specs[0].withService("b", "b").json(), ks[2].signer(ks[2].kid(ks[2].did())), false, txs[0], txs[1], txs[2])
+		}
+	}
+	// deactivated own DID
+	k1 := newKey("k1")
 	D := k1.did()
 	v1d := docSpec{id: D, vms: []vmSpec{{k1, relCapInv | relAssert}}}
 	v1 := x.send("create D by k1", v1d.json(), k1.k, true, e.root)
-	v2d := v1d.without(k1).with(k2, relCapInv)
-	v2 := x.send("v2 replace k1 by k2 (signed k1)", v2d.json(), k1.signer(k1.kid(D)), false, v1)
+	v2 := x.send("deactivate D", docSpec{id: D}.json(), k1.signer(k1.kid(D)), false, v1)
+	x.send("update deactivated D prevs=[v2]", v1d.withService("a", "a").json(), k1.signer(k1.kid(D)), false, v2)
+	x.send("update deactivated D prevs=[v1,v2]", v1d.withService("a", "a").json(), k1.signer(k1.kid(D)), false, v1, v2)
 	x.show(D)
-	v3d := v1d.withService("s1", "t1")
-	x.send("removed k1 prevs=[v2,v1]", v3d.json(), k1.signer(k1.kid(D)), false, v2, v1)
+	doc, md, err := e.store.Resolve(D, &resolver.ResolveMetadata{AllowDeactivated: true})
+	fmt.Println("   allowDeact:", err, md != nil && md.Deactivated, doc != nil && len(doc.CapabilityInvocation) > 0)
+	x.send("recreate deactivated D with embedded k1 prevs=[root]", v1d.withService("b", "b").json(), k1.k, true, e.root)
 	x.show(D)
-	x.send("removed k1 prevs=[v2]", v3d.json(), k1.signer(k1.kid(D)), false, v2)
-	x.send("removed k1 prevs=[v1,v2]", v3d.json(), k1.signer(k1.kid(D)), false, v1, v2)
-	x.show(D)
-
-	// controller scenarios
-	kc, kc2, kd := newKey("kc"), newKey("kc2"), newKey("kd")
-	C, DD := kc.did(), kd.did()
-	c1d := docSpec{id: C, vms: []vmSpec{{kc, relCapInv}}}
-	c1 := x.send("create C", c1d.json(), kc.k, true, e.root)
-	d1d := docSpec{id: DD, vms: []vmSpec{{kd, relCapInv}}}
-	d1 := x.send("create DD", d1d.json(), kd.k, true, e.root)
-	d2d := d1d.clone()
-	d2d.controllers = []did.DID{C}
-	d2 := x.send("DD controller=C (signed kd)", d2d.json(), kd.signer(kd.kid(DD)), false, d1)
-	x.send("DD own key after handing control prevs=[d2]", d2d.withService("a", "a").json(), kd.signer(kd.kid(DD)), false, d2)
-	d3 := x.send("DD update by C key prevs=[d2,c1]", d2d.withService("b", "b").json(), kc.signer(kc.kid(C)), false, d2, c1)
-	x.show(DD)
-	d4 := x.send("DD update by C key prevs=[c1,d3]", d2d.withService("c", "c").json(), kc.signer(kc.kid(C)), false, c1, d3)
-	x.show(DD)
-	// rotate C's key
-	c2d := c1d.without(kc).with(kc2, relCapInv)
-	c2 := x.send("C rotate kc->kc2", c2d.json(), kc.signer(kc.kid(C)), false, c1)
-	x.send("DD update by removed kc prevs=[d4,c2]", d2d.withService("d", "d").json(), kc.signer(kc.kid(C)), false, d4, c2)
-	d5 := x.send("DD update by removed kc prevs=[d4,c1]", d2d.withService("e", "e").json(), kc.signer(kc.kid(C)), false, d4, c1)
-	x.show(DD)
-	// deactivate C
-	c3d := docSpec{id: C}
-	c3 := x.send("C deactivate (signed kc2)", c3d.json(), kc2.signer(kc2.kid(C)), false, c2)
-	x.show(C)
-	x.send("DD update by kc2 of deactivated C prevs=[d5,c3]", d2d.withService("f", "f").json(), kc2.signer(kc2.kid(C)), false, d5, c3)
-	x.send("DD update by kc2 of deactivated C prevs=[d5,c2]", d2d.withService("g", "g").json(), kc2.signer(kc2.kid(C)), false, d5, c2)
-	x.show(DD)
-	x.send("DD update by kc2 of deactivated C prevs=[d5,c2,c3]", d2d.withService("h", "h").json(), kc2.signer(kc2.kid(C)), false, d5, c2, c3)
-	x.show(DD)
-	_, _, err := didnutsResolver(e).Resolve(DD, nil)
-	fmt.Println("   didnuts.Resolver DD:", err)
-	_ = resolver.ErrNotFound
+	// recreate with removed key
+	k3, k4 := newKey("k3"), newKey("k4")
+	E := k3.did()
+	e1d := docSpec{id: E, vms: []vmSpec{{k3, relCapInv}}}
+	e1 := x.send("create E by k3", e1d.json(), k3.k, true, e.root)
+	e2d := e1d.without(k3).with(k4, relCapInv)
+	e2 := x.send("E rotate k3->k4", e2d.json(), k3.signer(k3.kid(E)), false, e1)
+	x.send("recreate E embedded k3 prevs=[e2]", e1d.withService("z", "z").json(), k3.k, true, e2)
+	x.show(E)
+	// embedded relationship VM with bad ids
+	k5, kx := newKey("k5"), newKey("kx")
+	F := k5.did()
+	f1d := docSpec{id: F, vms: []vmSpec{{k5, relCapInv}}}
+	bad := mutate(f1d.json(), func(m map[string]any) {
+		kxd := docSpec{id: kx.did(), vms: []vmSpec{{kx, relCapInv}}}
+		var mm map[string]any
+		_ = jsonUnmarshal(kxd.json(), &mm)
+		vm := mm["verificationMethod"].([]any)[0].(map[string]any)
+		vm["id"] = F.String() + "#wrong"
+		m["capabilityInvocation"] = append(m["capabilityInvocation"].([]any), vm)
+	})
+	fmt.Println(string(bad))
+	x.send("create F with embedded capInv VM id#wrong", bad, k5.k, true, e.root)
+	x.show(F)
+	_ = v2
+	_ = time.Second
 }
+
+func jsonUnmarshal(b []byte, v any) error { return json.Unmarshal(b, v) }
